@@ -314,7 +314,11 @@ func fixations(w *chain.World) string {
 }
 
 func panicStep(p string) bfs.Step {
-	return bfs.Step{Accepted: true, Prune: true, Obs: "block-panic", Viol: []ev.Violation{{Property: "C37", Key: "block-panic:" + firstLine(p), What: "panic in block processing: " + firstLine(p)}}}
+	// the alphabet consists of epoch parameter changes only: a block that panics is an epoch grid failure (the block's
+	// epoch-start processing did not run to completion) as well as a chain halt
+	return bfs.Step{Accepted: true, Prune: true, Obs: "block-panic", Viol: []ev.Violation{
+		{Property: "C16", Key: "epoch-processing-panicked", What: "block processing panicked after a history of epoch parameter changes: " + firstLine(p)},
+		{Property: "C37", Key: "block-panic:" + firstLine(p), What: "panic in block processing: " + firstLine(p)}}}
 }
 
 func (s *scen) block() string {
@@ -382,10 +386,11 @@ func firstLine(s string) string {
 func init() {
 	bfs.Register("c16-2", func() bfs.Scenario { return build(2) })
 	bfs.Register("c16-3", func() bfs.Scenario { return build(3) })
+	bfs.Register("c16-4", func() bfs.Scenario { return build(4) })
 	reg.Register(reg.Check{Property: "C16", Level: "model_checking", Run: func(run *ev.Run) {
-		n, deadline := 2, 80*time.Second
+		n, deadline := 3, 4*time.Minute
 		if ev.Tier() == "thorough" {
-			n, deadline = 3, 18*time.Minute
+			n, deadline = 4, 25*time.Minute
 		}
 		cfg := bfs.Config{Scenario: fmt.Sprintf("c16-%d", n), MaxDepth: n + 1, Deadline: deadline}
 		st := bfs.Explore(cfg, run)
